@@ -185,7 +185,7 @@ def check_fp(case, seed):
     A, b = fp_map(name, n)
     fails, outcomes, evals = [], set(), 0
     worst = 0.0
-    for (atol, rtol), mi, atol_kind in itertools.product(FP_TOLS, FP_MAXIT, ("float", "array")):
+    for (atol, rtol), mi, atol_kind, inplace in itertools.product(FP_TOLS, FP_MAXIT, ("float", "array"), (False, True)):
         calls = []
         atol_scalar = atol
         if atol_kind == "array":
@@ -194,12 +194,18 @@ def check_fp(case, seed):
             atol_before = atol.copy()
 
         def fun(x):
+            xin = x.copy()
             y = A @ x + b
-            calls.append((x.copy(), y.copy()))
+            calls.append((xin, y.copy()))
+            if inplace:
+                # a map that updates its argument in place and hands it back (as the dual Stoermer-Verlet stage map does with
+                # views of the iterate): the helper must not let this destroy its own record of the previous iterate
+                x[:] = y
+                return x
             return y
 
         x0 = np.zeros(n) + 0.25
-        letters = {"helper": case["helper"], "family": name, "n": n, "atol": atol_scalar, "atol_kind": atol_kind, "rtol": rtol, "max_iter": mi}
+        letters = {"helper": case["helper"], "family": name, "n": n, "atol": atol_scalar, "atol_kind": atol_kind, "rtol": rtol, "max_iter": mi, "inplace_map": inplace}
         evals += 1
         x0_before = x0.copy()
         try:
